@@ -23,14 +23,45 @@ PROPS = ("C09",)
 
 
 def units(tier):
+    batch = [{"name": "batch_1500", "shape": {"kind": "batch", "n": 1500}}]
     if tier == "quick":
-        return sess.step_units(tier) + sess.bmc_units(tier, 2)
+        return sess.step_units(tier) + sess.bmc_units(tier, 2) + batch
     # depth 4 on the client (ids and response correlation are the client's business), without drains
     f = lambda side, op: side == "client" and not op.startswith("drain") and op != "search_unencodable"  # noqa: E731
-    return sess.step_units(tier) + sess.bmc_units(tier, 2) + sess.bmc_units(tier, 3) + sess.bmc_units(tier, 4, f)
+    return sess.step_units(tier) + sess.bmc_units(tier, 2) + sess.bmc_units(tier, 3) + sess.bmc_units(tier, 4, f) + batch
+
+
+def _batch(ctx, shape):
+    """a search stays in progress across ANY number of entries and references: thousands of them
+    in one delivery, then the done message and the response of another operation"""
+    S, M = ctx.L.session, ctx.L.messages
+    po = M.PackingOptions()
+    c = S.LDAPClient()
+    sid = c.search_request("dc=x")
+    eid = c.extended_request("1.2")
+    c.data_to_send()
+    n = shape["n"]
+    ok = M.LDAPResult(M.LDAPResultCode.SUCCESS, "", "")
+    data = bytes(M.SearchResultEntry(sid, [], "cn=a", []).pack(po)) * n + bytes(M.SearchResultReference(sid, [], ["ldap://x"]).pack(po)) * n
+    data = data + bytes(M.SearchResultDone(sid, [], ok).pack(po)) + bytes(M.ExtendedResponse(eid, [], ok, None, None).pack(po))
+    try:
+        got = c.receive(data)
+    except Exception as e:  # noqa: BLE001
+        from sx.harness import exc_site
+
+        ctx.fail("C09:responses-for-operations-in-progress-rejected-in-a-long-delivery", f"{type(e).__name__}@{exc_site(e)}")
+    ctx.require(len(got) == 2 * n + 2, "C09:long-delivery-did-not-return-every-response")
+    ctx.require(c.state.name == "OPENED", "C09:state-after-long-delivery")
+    try:
+        c.receive(bytes(M.SearchResultEntry(sid, [], "cn=a", []).pack(po)))
+        ctx.fail("C09:response-for-unknown-or-completed-id-accepted", "after-long-delivery")
+    except S.ProtocolError:
+        pass
 
 
 def body(ctx, shape):
+    if shape["kind"] == "batch":
+        return _batch(ctx, shape)
     if shape["kind"] == "step":
         return sess.run_step(ctx, shape, PROPS)
     return sess.run_bmc(ctx, shape, PROPS)
